@@ -416,6 +416,8 @@ type SynAckSpec struct {
 	NoiseKind     string `json:"noise_kind,omitempty"`  // precede the genuine SYN-ACK with mutations of it (see Listener.Mutate)
 	NoiseArg      int    `json:"noise_arg,omitempty"`
 	NoiseForeign  bool   `json:"noise_foreign,omitempty"` // the mutated SYN-ACKs belong to another flow (client port differs)
+	FloodCount    int    `json:"flood_count,omitempty"`   // SYN-ACKs of other connections to the same target, ...
+	FloodEveryMs  int    `json:"flood_every_ms,omitempty"` // ... this far apart, starting when the connection is accepted
 }
 
 type Listener struct {
@@ -468,6 +470,14 @@ func (l *Listener) poll(n *Net) {
 		l.conns = append(l.conns, c)
 		if l.OnAccept != nil {
 			l.OnAccept(n, l, client)
+		}
+		mk0 := func(cli netip.AddrPort) []byte {
+			t := refcodec.TCP(l.Addr.Addr(), cli.Addr(), l.Addr.Port(), cli.Port(), 0x5000, 0x6000, refcodec.SYN|refcodec.ACK, 65535, refcodec.Cat(refcodec.OptMSS(1460), refcodec.OptSackPermitted()), nil)
+			return refcodec.Wrap(l.Addr.Addr(), cli.Addr(), refcodec.ProtoTCP, 64, 0, t)
+		}
+		for k := 0; k < l.Spec.FloodCount; k++ {
+			other := netip.AddrPortFrom(client.Addr(), client.Port()+uint16(1+k%50))
+			n.Schedule(Reply{DelayNs: int64(k+1) * int64(l.Spec.FloodEveryMs) * 1_000_000, Raw: mk0(other), Meta: Meta{ToTTL: -1, Tag: "synack-flood", From: l.Addr.Addr(), Flow: -1}})
 		}
 		if !l.Spec.Enabled {
 			continue
